@@ -296,3 +296,24 @@ Definition new_record (c : bytes) (start : N) : outcome (bytes * N * N * N * N *
 
 Definition c19_question (c : bytes) (start : N) := new_question c start.
 Definition c19_record (c : bytes) (start : N) := new_record c start.
+
+(* ---- Part 4: the uncompressed name parser ----
+   new/base/name/absolute.rs  Name::split_bytes_by_ref (what <&Name>::split_bytes /
+   parse_bytes and NameBuf::split_bytes / parse_bytes delegate to) *)
+Fixpoint flat_walk (fuel : nat) (b : bytes) (offset : N) : outcome (bytes * bytes) :=
+  match fuel with
+  | O => OutOfFuel
+  | S f =>
+      if cmp_lt name_flat_strict offset name_flat_bound then
+        match get_from b offset with
+        | None => Err E_PARSE
+        | Some [] => Err E_PARSE
+        | Some (l :: rest) =>
+            if l =? 0 then Ok (firstn (N.to_nat (offset + 1)) b, skipn (N.to_nat (offset + 1)) b)
+            else if (l <=? 63) && (l <=? len rest) then flat_walk f b (offset + 1 + l)
+            else Err E_PARSE
+        end
+      else Err E_PARSE
+  end.
+Definition flat_split (b : bytes) : outcome (bytes * bytes) := flat_walk 256 b 0.
+Definition c19_flat (b : bytes) := flat_split b.
